@@ -20,7 +20,7 @@ import numpy as np
 
 from .common import REPO
 
-GDIM = {"interval": 1, "triangle": 2, "quadrilateral": 2, "tetrahedron": 3, "hexahedron": 3, "prism": 3}
+GDIM = {"interval": 1, "triangle": 2, "quadrilateral": 2, "tetrahedron": 3, "hexahedron": 3, "prism": 3, "pyramid": 3}
 
 ENTRIES: dict[str, tuple[str, str]] = {}
 _BUILDERS = {}
@@ -550,3 +550,89 @@ def expr_interval_two_coefficients():
     f, g = ufl.Coefficient(V), ufl.Coefficient(space(m, "Lagrange", 1))
     pts = np.array([[0.0], [0.5], [1.0]])
     return [(ufl.grad(f)[0] * g, pts), (ufl.as_vector([g, f * g]), pts)], {}
+
+
+# ------------------------------------------------------------------- unsupported constructs (C19)
+# Each returns (objects, options, kind).  FFCx must reject them with a Python exception before any C compiler runs.
+UNSUPPORTED = {}
+
+
+def unsupported(fn):
+    UNSUPPORTED[fn.__name__] = fn
+    return fn
+
+
+@unsupported
+def custom_integral_type():
+    ufl, _, _ = _U()
+    m = mesh("triangle")
+    u, v = tt(space(m, "Lagrange", 1))
+    return [u * v * ufl.Measure("dc", domain=m)], {}, "form"
+
+
+@unsupported
+def cutcell_integral_type():
+    ufl, _, _ = _U()
+    m = mesh("triangle")
+    u, v = tt(space(m, "Lagrange", 1))
+    return [u * v * ufl.Measure("dC", domain=m)], {}, "form"
+
+
+@unsupported
+def vertex_integral_discontinuous():
+    ufl, _, _ = _U()
+    m = mesh("triangle")
+    u, v = tt(space(m, "Discontinuous Lagrange", 1))
+    return [u * v * ufl.dP], {}, "form"
+
+
+@unsupported
+def empty_form():
+    ufl, _, _ = _U()
+    return [ufl.Form([])], {}, "form"
+
+
+@unsupported
+def interior_facet_on_prism():
+    ufl, _, _ = _U()
+    m = mesh("prism")
+    V = space(m, "Lagrange", 1)
+    v = ufl.TestFunction(V)
+    f = ufl.Coefficient(V)
+    return [ufl.avg(f) * ufl.avg(v) * ufl.dS], {}, "form"
+
+
+@unsupported
+def expression_two_arguments():
+    ufl, _, _ = _U()
+    m = mesh("triangle")
+    u, v = tt(space(m, "Lagrange", 1))
+    return [(u * v, np.array([[0.25, 0.25]]))], {}, "expr"
+
+
+@unsupported
+def codimension_three():
+    ufl, _, bu = _U()
+    m = mesh("tetrahedron")
+    pm = ufl.Mesh(bu.element("Lagrange", "point", 0, shape=(3,)))
+    V = space(m, "Lagrange", 1)
+    Q = ufl.FunctionSpace(pm, bu.element("Lagrange", "point", 0))
+    u, q = ufl.TrialFunction(V), ufl.TestFunction(Q)
+    return [u * q * ufl.Measure("dx", domain=m)], {}, "form"
+
+
+@unsupported
+def sum_factorization_without_tensor_product_element():
+    ufl, _, _ = _U()
+    m = mesh("hexahedron")
+    u, v = tt(space(m, "Q", 1))
+    return [u * v * ufl.dx], {"sum_factorization": True}, "form"
+
+
+@unsupported
+def facet_expression_of_cell_facet_quantity_on_cell_points():
+    ufl, _, _ = _U()
+    m = mesh("triangle")
+    n = ufl.FacetNormal(m)
+    f = ufl.Coefficient(space(m, "Lagrange", 1))
+    return [(f * n[0], np.array([[0.25, 0.25]]))], {}, "expr"
